@@ -81,6 +81,12 @@ def corpus():
     d["tasks"][1]["spell"] = {"20": "dotdot"}
     d["tasks"][2]["spell"] = {"20": "rel"}
     out.append(("corpus-diamond", d))
+    # function form of after towards: a plain function, a function carrying only a marker, a @task function (all with a product)
+    m = {"tasks": [T(0, prods=[20]), T(1, prods=[21]), T(2, prods=[22]), T(3, prods=[23], after=[1], after_style="func"),
+                   T(4, prods=[24], after=[0, 1, 2], after_style="list")], "py": [], "wrap": [], "stale": False}
+    m["tasks"][1]["marks"] = ["try_last"]
+    m["tasks"][2]["force_task"] = True
+    out.append(("corpus-afterfn", m))
     return out
 
 
@@ -237,6 +243,9 @@ def e2e_cases(ctx):
         for length in range(1, 7):
             for through in ("file", "py", "after", "mixed"):
                 cases.append((f"cycle{length}", dagproj.gen_cycle(rng, length, through)))
+    # function form of after (single reference / list) towards plain, @task-decorated and marker-only functions, with and without products
+    for _ in range(ctx.scale(14, 200)):
+        cases.append(("afterfn", dagproj.gen_after_forms(rng, close_cycle=rng.random() < 0.3)))
     for _ in range(ctx.scale(1, 5)):
         for k in (2, 3, 4):
             for mode in ("mixed", rng.choice(dagproj.SPELLINGS)):
@@ -329,7 +338,8 @@ def check_e2e(ctx, cases):
         ids = sorted(t["id"] for t in s["tasks"])
         canon = ["e2e", [[t["id"], t["module"], t["deps"], t["prods"], t["after"], t.get("after_style"), sorted(t.get("spell", {}).items())] for t in s["tasks"]],
                  s.get("py"), s.get("stale"), s.get("pk"), s.get("dirs"), s.get("subdirs"), sorted((s.get("opts") or {}).items()),
-                 sorted((s.get("pyval") or {}).items()), [t.get("dep_form") for t in s["tasks"]], [t.get("prod_style") for t in s["tasks"]]]
+                 sorted((s.get("pyval") or {}).items()), [t.get("dep_form") for t in s["tasks"]], [t.get("prod_style") for t in s["tasks"]],
+                 [[t.get("marks"), t.get("force_task")] for t in s["tasks"]]]
         ctx.case(canon, an["ill"] or any(t["deps"] or t["after"] for t in s["tasks"]),
                  {"layer": "e2e", "tasks": [{k: t[k] for k in ("id", "deps", "prods", "after", "spell") if t.get(k) or k == "id"} for t in s["tasks"]],
                   "py": s.get("py"), "ill_formed": an["ill"], "exit": obs.get("exit"), "second_build_exit": rec.get("obs2", {}).get("exit")})
@@ -359,7 +369,8 @@ def check_e2e(ctx, cases):
         rep = {"layer": "e2e", "spec": s, "tag": tag}
         desc = (f"tasks {[[t['id'], t['deps'], t['prods'], t['after']] for t in s['tasks']]}, py {s.get('py')}, pickle {s.get('pk')}, "
                 f"directory nodes {s.get('dirs')}, in-memory nodes with initial value {sorted(s.get('pyval') or {})}, "
-                f"dependency forms {[t.get('dep_form', 'bare') for t in s['tasks']]}, module folders {bool(s.get('subdirs'))}, options {s.get('opts')}")
+                f"dependency forms {[t.get('dep_form', 'bare') for t in s['tasks']]}, after forms {rec['forms']}, "
+                f"markers {[t.get('marks', []) for t in s['tasks']]}, bare @task {[bool(t.get('force_task')) for t in s['tasks']]}, module folders {bool(s.get('subdirs'))}, options {s.get('opts')}")
         if obs.get("raised") or obs.get("died"):
             ctx.violation(f"build() raised {obs.get('raised')} ({desc})", dict(rep, expect="no-raise"), None)
             continue
